@@ -192,9 +192,10 @@ class Run:
         self.stats = st
         gp = os.path.join(P.workdir(), "groups.ndjson")
         dump_groups(groups, gp)
+        import findings
         tcase = dict(inputs=inputs, options=options, lower=lower or [[0, 0]], uclass=uclass or [[0]],
                      cmp=dict(dict(store=True, errs=True, ctx=False, norm=False), **(cmp or {})),
-                     kf=getattr(self, "kf", []) or ["-"], strict=sorted(wit) or [0])
+                     kf=(list(getattr(self, "kf", [])) + [f["id"] for f in findings.active() if f["id"] == "F35"]) or ["-"], strict=sorted(wit) or [0])
         self.gp, self.tcase = gp, tcase
         div, tot = P.validate_t1(gp, tcase, obs, shards=shards)
         # witnesses of known findings: a divergence with the finding's symptom re-confirms it
